@@ -14,7 +14,7 @@ RULES = {
     "C07": [("sa.rules.b3", "r_C07"), ("sa.rules.b6", "r_C03bc"), ("sa.rules.c03", "r_C03fgh"), ("sa.rules.c07", "r_C07eval"), ("sa.rules.c05", "r_none_tests"), ("sa.rules.c01", "r_C01i"), ("sa.rules.c25", "r_who_writes"), ("sa.rules.b3", "r_C16a"), ("sa.rules.c01e", "r_C01visitors"), ("sa.rules.cres", "r_resolver"), ("sa.rules.cpn", "r_processnode"), ("sa.rules.c05e", "r_C05children"), ("sa.rules.c32", "r_C32"), ("sa.rules.c03e", "r_C03eval")],
     "C08": [("sa.rules.b3", "r_C08_C34"), ("sa.rules.cmeta", "r_initobj"), ("sa.rules.cres", "r_resolver"), ("sa.rules.cpn", "r_processnode"), ("sa.rules.c09e", "r_extrel")],
     "C09": [("sa.rules.b3", "r_C09"), ("sa.rules.b3", "r_C07"), ("sa.rules.cmisc", "r_C13d_C34f_C09d"), ("sa.rules.b3", "r_C08_C34"), ("sa.rules.cres", "r_resolver"), ("sa.rules.c10e", "r_C10eval"), ("sa.rules.cpn", "r_processnode"), ("sa.rules.c11e", "r_C11eval"), ("sa.rules.cdrv", "r_driver"), ("sa.rules.c09e", "r_extrel"), ("sa.rules.c17", "r_C18i"), ("sa.rules.c17e", "r_C17eval")],
-    "C10": [("sa.rules.b3", "r_C05_C10"), ("sa.rules.c05", "r_none_tests"), ("sa.rules.b6", "r_C03bc"), ("sa.rules.c03", "r_C03fgh"), ("sa.rules.c01", "r_C01i"), ("sa.rules.c01e", "r_C01visitors"), ("sa.rules.c10e", "r_C10eval"), ("sa.rules.c05e", "r_C05children"), ("sa.rules.c14", "r_C14inst"), ("sa.rules.cres", "r_resolver"), ("sa.rules.cpn", "r_processnode")],
+    "C10": [("sa.rules.b3", "r_C05_C10"), ("sa.rules.c05", "r_none_tests"), ("sa.rules.b6", "r_C03bc"), ("sa.rules.c03", "r_C03fgh"), ("sa.rules.c01", "r_C01i"), ("sa.rules.c01e", "r_C01visitors"), ("sa.rules.c10e", "r_C10eval"), ("sa.rules.c05e", "r_C05children"), ("sa.rules.c14", "r_C14inst"), ("sa.rules.cres", "r_resolver"), ("sa.rules.cpn", "r_processnode"), ("sa.rules.c17e", "r_C17eval")],
     "C11": [("sa.rules.b3", "r_C03de_C11a_C17bc"), ("sa.rules.c11", "r_C11b"), ("sa.rules.c11", "r_C11de"), ("sa.rules.c32", "r_C32c"), ("sa.rules.c05", "r_none_tests"), ("sa.rules.c12", "r_C12f"), ("sa.rules.c12e", "r_C12eval"), ("sa.rules.c11e", "r_C11eval")],
     "C12": [("sa.rules.b1", "r_C12a"), ("sa.rules.c12", "r_C12b"), ("sa.rules.c05", "r_C12c"), ("sa.rules.c11", "r_C11de"), ("sa.rules.c12", "r_C12f"), ("sa.rules.c12e", "r_C12eval")],
     "C13": [("sa.rules.b3", "r_C13"), ("sa.rules.c13", "r_C13eval"), ("sa.rules.cmisc", "r_C13d_C34f_C09d"), ("sa.rules.cmisc", "r_C13e"), ("sa.rules.c04", "r_C04defaults"), ("sa.rules.c17", "r_C18i"), ("sa.rules.b3", "r_C28b_C33b_C30bc"), ("sa.rules.cmeta", "r_mmapi"), ("sa.rules.cpn", "r_processnode"), ("sa.rules.cdrv", "r_driver"), ("sa.rules.c14", "r_endconstruction")],
@@ -57,7 +57,7 @@ ALSO = {
     "C14": {"C01": ("C01.j",), "C13": ("C13.a",), "C15": ("C15.h", "C15.c", "C15.d", "C15.e", "C15.f", "C15.k", "C15.m"), "C18": ("C18.k",), "C06": ("C06.b",)},
     "C15": {"C16": ("C16.a",), "C14": ("C14.a", "C14.f", "C14.e", "C14.i", "C14.j", "C14.c", "C14.k", "C14.q"), "C18": ("C18.a", "C18.g", "C18.c", "C18.d", "C18.j")},
     # C09 "a Postponed result is never bound/stored": the builtins fallback clause of C07.b
-    "C09": {"C07": ("C07.b", "C07.e"), "C08": ("C08.a", "C08.b", "C08.d"), "C05": ("C05.g",), "C11": ("C11.h",), "C18": ("C18.k", "C18.j")},   # C18.j: a model of a failed load left in the shared repository is visited again by the fixpoint loop of every later load; "the result does not depend on the order taken": positional storage of list references
+    "C09": {"C34": ("C34.h",), "C07": ("C07.b", "C07.e"), "C08": ("C08.a", "C08.b", "C08.d"), "C05": ("C05.g",), "C11": ("C11.h",), "C18": ("C18.k", "C18.j")},   # C18.j: a model of a failed load left in the shared repository is visited again by the fixpoint loop of every later load; "the result does not depend on the order taken": positional storage of list references
     # "a repeated load of the same file returns the cached model": cleanup of a failed load must not evict finished models
     "C17": {"C18": ("C18.b", "C18.j", "C18.k"), "C15": ("C15.j",)},
     # the reference spans of _pos_crossref_list are the (position, position_end) queued with each ObjCrossRef
@@ -86,7 +86,7 @@ ALSO = {
     # C16 'each load ... equal to a fresh process state, also after failing loads': instrumentation / storage / repository cleanup clauses
     "C16": {"C01": ("C01.d", "C01.h",), "C15": ("C15.c", "C15.d", "C15.h", "C15.j", "C15.k", "C15.m"), "C14": ("C14.a", "C14.f", "C14.i", "C14.j", "C14.c", "C14.k"), "C18": ("C18.k", "C18.j")},
     # C10 'ending in an object of the target type': the conformance test textx_isinstance
-    "C10": {"C03": ("C03.c", "C03.h",), "C01": ("C01.i",), "C14": ("C14.m", "C14.p"), "C05": ("C05.h", "C05.g"), "C07": ("C07.e",)},
+    "C10": {"C03": ("C03.c", "C03.h",), "C01": ("C01.i",), "C14": ("C14.m", "C14.p"), "C05": ("C05.h", "C05.g"), "C07": ("C07.e",), "C17": ("C17.m",)},      # C17.m: which imported models are visible to the importing model decides which qualified names the import providers may resolve (alias-only imports stay invisible)
     # the type a (possibly qualified) reference names is kept over repeated assignments
     "C25": {"C01": ("C01.i",)},
 }
